@@ -182,18 +182,81 @@ func (u *Unit) Info() *types.Info { return u.Fn.Pkg.TypesInfo }
 // edges whose operands cannot have changed on the way (a conjunct is dropped, which only weakens the
 // condition, when a local variable or field access path it reads is assigned between the branch and
 // the site), plus the short-circuit context of a site inside a condition.
-func (u *Unit) SitePC(s *flow.Site) *flow.F {
-	var parts []*flow.F
-	for _, d := range u.G.Dominators(s.Block) {
-		if d.EdgeCond == nil {
-			continue
-		}
-		if u.staleBetween(d, s) {
-			continue
-		}
-		parts = append(parts, u.edgeFormula(d))
+func (u *Unit) SitePC(s *flow.Site) *flow.F { return u.sitePC(s, false) }
+
+// BlockEntryPC is the path condition as of entry to the site's basic block: assignments made in the
+// straight-line code of that block before the site do not invalidate conjuncts (the condition "held
+// when control entered the block", which is what a guard on an effect means).
+func (u *Unit) BlockEntryPC(s *flow.Site) *flow.F { return u.sitePC(s, true) }
+
+func (u *Unit) sitePC(s *flow.Site, atEntry bool) *flow.F {
+	if !s.Block.Reachable() {
+		return flow.False()
 	}
-	pc := flow.And(parts...)
+	if atEntry {
+		s = &flow.Site{Kind: s.Kind, Block: s.Block, NodeIdx: -1, Ctx: nil}
+	}
+	stale := map[*flow.Block]bool{}
+	cond := func(e *flow.Block) *flow.F {
+		if e.EdgeCond == nil {
+			return flow.True()
+		}
+		st, ok := stale[e]
+		if !ok {
+			st = u.staleBetween(e, s)
+			stale[e] = st
+		}
+		if st {
+			return flow.True()
+		}
+		return u.edgeFormula(e)
+	}
+	// region(d, b): disjunction over the forward paths d -> b of the conjunction of their edge
+	// conditions; back edges are not followed (see DESIGN.md, path conditions).
+	type key struct{ d, b *flow.Block }
+	memo := map[key]*flow.F{}
+	budget := 4000
+	var region func(d, b *flow.Block) *flow.F
+	region = func(d, b *flow.Block) *flow.F {
+		if b == d {
+			return flow.True()
+		}
+		k := key{d, b}
+		if f, ok := memo[k]; ok {
+			return f
+		}
+		memo[k] = flow.True() // cycle guard (weaker)
+		budget--
+		if budget < 0 {
+			return flow.True()
+		}
+		var alts []*flow.F
+		for _, e := range b.Preds {
+			p := e.From
+			if !p.Reachable() || u.G.Dominates(b, p) { // back edge
+				continue
+			}
+			if !u.G.Dominates(d, p) {
+				alts = append(alts, flow.True())
+				continue
+			}
+			alts = append(alts, flow.And(region(d, p), cond(b)))
+		}
+		var f *flow.F
+		if len(alts) == 0 {
+			f = flow.True()
+		} else {
+			f = flow.Simplify(flow.Or(alts...))
+		}
+		memo[k] = f
+		return f
+	}
+	var parts []*flow.F
+	doms := u.G.Dominators(s.Block)
+	for i := 1; i < len(doms); i++ {
+		parts = append(parts, region(doms[i-1], doms[i]))
+	}
+	pc := flow.Simplify(flow.And(parts...))
 	if s.Ctx != nil && s.Ctx.Op != flow.OpTrue {
 		pc = flow.And(pc, u.C.Formula(s.Ctx))
 	}
